@@ -535,3 +535,97 @@ def r09_6(ctx, repo):
                               'classified' % (construct, cont[:40]))
     if n < 2:
         ctx.error(rule, 'only %d renaming guards found (floor 2)' % n)
+
+
+def r09_7(ctx, repo):
+    """Names supplied by the caller are published names.
+
+    `enable_sensitivities(True, parameter_names)` receives the names the
+    model publishes (parameters()); the optional filter must therefore walk
+    the *published* names (values of `_parameter_name_map`, same order as
+    `_parameter_names`) when it tests `name in parameter_names`, otherwise a
+    renamed parameter silently drops out of the request.  In `set_outputs` the
+    published-name table of the outputs must be rebuilt for exactly the new
+    selection (a table that is only added to keeps the names of de-selected
+    outputs and blocks their re-use)."""
+    rule = 'R09.7'
+    n = 0
+    for cls in repo.subclasses(CLS):
+        fn = repo.cls(cls).methods.get('enable_sensitivities')
+        if fn is not None and 'parameter_names' in [
+                a.arg for a in fn.args.args]:
+            construct = '%s.enable_sensitivities' % cls
+            for l in ast.walk(fn):
+                if not isinstance(l, ast.For):
+                    continue
+                tests = [c for c in ast.walk(l) if isinstance(c, ast.Compare)
+                         and len(c.ops) == 1 and isinstance(
+                             c.ops[0], (ast.In, ast.NotIn))
+                         and U(c.comparators[0]) == 'parameter_names']
+                if not tests:
+                    continue
+                src = l.iter
+                if isinstance(src, ast.Call) and U(src.func) in (
+                        'enumerate', 'zip') and src.args:
+                    # the tested variable's source among the zipped args
+                    names = [U(x) for x in ast.walk(l.target)
+                             if isinstance(x, ast.Name)]
+                    tv = U(tests[0].left)
+                    args = src.args
+                    if U(src.func) == 'enumerate':
+                        src = args[0]
+                    else:
+                        elts = l.target.elts if isinstance(
+                            l.target, ast.Tuple) else [l.target]
+                        idx = [i for i, e in enumerate(elts) if U(e) == tv]
+                        src = args[idx[0]] if idx and idx[0] < len(args) \
+                            else args[0]
+                n += 1
+                stxt = U(src).replace(' ', '')
+                where = repo.loc(tests[0], cls, fn.name)
+                if '_parameter_name_map.values()' in stxt or stxt in (
+                        'self.parameters()',):
+                    ctx.ok(rule, where, construct,
+                           'the requested names are matched against the '
+                           'published parameter names')
+                elif 'self._parameter_names' in stxt:
+                    ctx.violation(
+                        rule, where, construct, 'request filter',
+                        '`%s` matches the requested names against `%s`, the '
+                        'immutable myokit names; callers pass published '
+                        'names (parameters()), so after a renaming the '
+                        'renamed parameters are silently left out of the '
+                        'sensitivity request' % (U(tests[0])[:50], U(src)))
+                else:
+                    ctx.error(rule, '%s: source `%s` of the name filter not '
+                              'classified' % (construct, U(src)[:40]))
+        fn = repo.cls(cls).methods.get('set_outputs')
+        if fn is not None:
+            construct = '%s.set_outputs' % cls
+            rebinds = [a for a in ast.walk(fn) if isinstance(a, ast.Assign)
+                       and any(U(t) == 'self._output_name_map'
+                               for t in a.targets)]
+            stores = [a for a in ast.walk(fn) if isinstance(a, ast.Assign)
+                      and any(isinstance(t, ast.Subscript) and U(
+                          t.value) == 'self._output_name_map'
+                          for t in a.targets)]
+            n += 1
+            where = repo.loc(rebinds[0] if rebinds else (
+                stores[0] if stores else fn), cls, fn.name)
+            if rebinds:
+                ctx.ok(rule, where, construct,
+                       'the output name table is rebuilt for the new '
+                       'selection')
+            elif stores:
+                ctx.violation(
+                    rule, where, construct, 'stale output names',
+                    '`%s` adds to the existing output name table instead of '
+                    'rebuilding it for the new selection: names of outputs '
+                    'that are no longer selected stay in the table (they '
+                    'clash with later renamings and survive a re-selection)'
+                    % norm_stmt(stores[0])[:60])
+            else:
+                ctx.error(rule, '%s: update of the output name table not '
+                          'found' % construct)
+    if n < 2:
+        ctx.error(rule, 'only %d sites found (floor 2)' % n)
